@@ -16,6 +16,7 @@ Reading guide
 import EPV.Lemmas.ClosuresStep
 import EPV.Lemmas.ClosuresHof
 import EPV.Lemmas.ClosuresFlags
+import EPV.Lemmas.ClosuresHeap
 namespace EPV.C16
 open EPV.Clo
 
@@ -123,6 +124,42 @@ theorem call_repeatable (cfg : Cfg) (n : Nat) (a : Nat) (args : List Seq)
   · exact s₁.symm
   · exact s₁.1.symm
 
+/-! ## function objects are immutable -/
+
+/-- `heap_append_only`: whatever is evaluated, on whatever tree configuration, the function objects
+that exist before the evaluation exist afterwards, unchanged, at the same addresses (evaluation
+only allocates).  The only mutable state of the model is the token slot (F16) and the variables
+dict (F05). -/
+theorem heap_append_only (cfg : Cfg) (n : Nat) (e : Expr) (c : ICtx) (D : Env) (st st' : St) (r : Seq × Env)
+    (h : (eval cfg n e c D st).2 = .ok (r, st')) :
+    ∀ i, i < st.heap.length → st'.heap[i]? = st.heap[i]? := by
+  obtain ⟨t, ht⟩ := hp_eval cfg trivial n e c D st r st' h
+  intro i hi
+  rw [← ht, List.getElem?_append_left hi]
+
+/-- `partial_apply_heap_unchanged`: a partial application — of a plain function, of a named
+reference, or of an already partial function (placeholders refilled) — creates a new function
+object and never changes an existing one: the argument list of the function it was derived from
+stays what it was, however many partials are derived from it and in whatever order they are used. -/
+theorem partial_apply_heap_unchanged (cfg : Cfg) (n : Nat) (c : ICtx) (D : Env) (a : Nat)
+    (args : List (Option Expr)) (st st' : St) (r : Seq × Env)
+    (h : (partialApply cfg (eval cfg n) c D a args st).2 = .ok (r, st')) :
+    ∀ i, i < st.heap.length → st'.heap[i]? = st.heap[i]? := by
+  obtain ⟨t, ht⟩ := hp_partialApply cfg trivial (eval cfg n) (hp_eval cfg trivial n) c D a args st r st' h
+  intro i hi
+  rw [← ht, List.getElem?_append_left hi]
+
+/-- test on literals: two partials derived from one partial, the first-level partial used again
+afterwards — `let $f := function($a,$b,$c){($a,$b,$c)}, $g := $f(?,2,?), $h := $g(1,?) return
+($h(3), $g(5,6), $g(?,9)(8))` -/
+example : specEval 30
+    (.letE 0 (.fnE 0 [1, 2, 3] (.cat (.cat (.var 1) (.var 2)) (.var 3)))
+      (.letE 4 (.call (.var 0) [none, some (.lit 2), none])
+        (.letE 5 (.call (.var 4) [some (.lit 1), none])
+          (.cat (.cat (.call (.var 5) [some (.lit 3)]) (.call (.var 4) [some (.lit 5), some (.lit 6)]))
+            (.call (.call (.var 4) [none, some (.lit 9)]) [some (.lit 8)]))))) =
+    .ok [.int 1, .int 2, .int 3, .int 5, .int 2, .int 6, .int 8, .int 2, .int 9] := by decide
+
 /-! ## higher-order functions -/
 
 /-- `hof_eq_expansion`, part 1 (model = F&O definition): the loops of the implementation
@@ -187,6 +224,29 @@ theorem sort_perm_sorted_stable (ks : List (Item × List Int)) :
   · exact List.pairwise_mergeSort kle_trans kle_total ks
   · intro p q hpq hsub
     exact List.pair_sublist_mergeSort kle_trans kle_total hpq hsub
+
+/-- `key_called_per_occurrence`: the key list the sort works on has one entry per **occurrence** of
+an item of the input, in input order, and entry `i` is the key function applied to occurrence `i`
+(model: `hofKeys` simulates the specification's `specKeys`; specification: for a key function that
+behaves as the pure function `k`, the decorated list is `xs.map (x ↦ (x, key (k x)))`).  In
+particular two items that are equal as values but differ in type (`1`, `1.0`, `1e0`), or a boolean
+and the integer of the same truth value, are each sorted by their own key. -/
+theorem key_called_per_occurrence (cfg : Cfg) (n : Nat) (c : ICtx) (a : Nat) :
+    (∀ xs D, Sim Prod.fst (hofKeys cfg (eval cfg n) c a D [] xs) (specKeys (specCall (sem n)) a xs)) ∧
+    (∀ (callf : Nat → List Seq → SM Seq) (k : Item → Seq) (g : Item → List Int),
+      (∀ x, callf a [[x]] = pure (k x)) → (∀ x, keyOf (k x) = .ok (g x)) →
+      ∀ xs, specKeys callf a xs = pure (xs.map fun x => (x, g x)) ∧
+            specSort callf a xs = pure ((sortSpec (xs.map fun x => (x, g x))).map (·.1))) := by
+  refine ⟨fun xs D => ?_, fun callf k g hk hg xs => ⟨specKeys_pure callf a k g hk hg xs, specSort_pure callf a k g hk hg xs⟩⟩
+  simpa only [List.nil_append, bind_pure] using hofKeys_sim cfg _ _ (eval_sim cfg n) c a xs D []
+
+/-- test on literals: `sort((1, true(), 1.0, 1e0), (), function($x){ type code of $x })` — equal values,
+four types, sorted by type code boolean < double < decimal < integer -/
+example : specEval 30 (.sortK
+    (.par (.cat (.cat (.cat (.lit 1) .tt) (.dlit 1)) (.elit 1)))
+    (.fnE 0 [0] (.ite (.inst .boolean (.var 0)) (.lit 0) (.ite (.inst .double (.var 0)) (.lit 1)
+      (.ite (.inst .integer (.var 0)) (.lit 3) (.lit 2)))))) =
+    .ok [.bool true, .dbl 1, .dec 1, .int 1] := by decide
 
 /-- the key order is a total preorder (needed for "ordered" to mean anything) -/
 theorem key_order_total_preorder :
